@@ -70,6 +70,11 @@ Module Lit.
   Definition codebase := Eval compute in zs " codebase: ".
   Definition version := Eval compute in zs "; version: ".
   Definition hexdigits := Eval compute in zs "0123456789abcdef".
+  (* the words of the substring tests of blob_to_df / blob_to_csv *)
+  Definition w_name := Eval compute in zs "name".
+  Definition w_label := Eval compute in zs "label".
+  Definition w_alias := Eval compute in zs "alias".
+  Definition w_assignment := Eval compute in zs "assignment".
 End Lit.
 Definition c_comma := 44.
 Definition c_quote := 34.
@@ -223,10 +228,23 @@ Definition row_tok (cm : bool) (r : list str) : bool :=
   end.
 Definition well_tok (cm : bool) (rows : list (list str)) : bool := forallb (row_tok cm) rows.
 (* what the real writer / reader need in addition:
-   - a code point is a Unicode scalar value other than NUL: the file is written as UTF-8 (a surrogate
-     code point makes the writer raise UnicodeEncodeError) and the C reader cuts a field at NUL
-     ('a\x00b' reads as 'a');
-   - the first field of a row does not start with an unquoted blank / tab (chunk boundary, see top) *)
+   - a code point is a Unicode scalar value other than NUL: ASSUMING THE LOCALE'S ENCODING IS UTF-8 (see
+     below) a surrogate code point makes the writer raise UnicodeEncodeError, every other code point is
+     written; and the C reader cuts a field at NUL ('a\x00b' reads as 'a');
+   - the first field of a row does not start with an unquoted blank / tab (chunk boundary, see top);
+   - the TEXT does not start with U+FEFF (audit 4, A6): read_csv strips a leading byte order mark, so a table
+     whose first row's first field starts with an unquoted U+FEFF reads back without it
+     ([[[65279;105;100];[110]];[[99];[97]]] reads as [['id','n'],['c','a']]).  A field that needs quoting
+     starts the text with DQUOTE; a file with comment lines - every file blob_to_csv writes - starts with '#':
+     both unaffected.
+   LOCALE ASSUMPTION (audit 4, A6).  blob_to_csv opens the file with `open(output_path, 'w')`, NO encoding
+   argument: the text is encoded with locale.getpreferredencoding(False).  The model is the sequence of CODE
+   POINTS; "the file" is their UTF-8 encoding only under a UTF-8 locale (any *.UTF-8 locale, or Python's UTF-8
+   mode: PYTHONUTF8=1 / -X utf8, or the C-locale coercion of PEP 538, which is on by default).  Under
+   LC_ALL=C PYTHONUTF8=0 PYTHONCOERCECLOCALE=0 the encoding is ASCII and a node name / cell id / metadata file
+   name with a non-ASCII character makes blob_to_csv raise UnicodeEncodeError ('ascii' codec can't encode
+   character) after the comment lines were written: observed, an environment dependence of the real code, not
+   modelled.  The reader side (pd.read_csv) always decodes UTF-8. *)
 Definition char_ok (c : Z) : bool :=
   (0 <? c) && (c <? 1114112) && negb ((55296 <=? c) && (c <=? 57343)).
 Definition first_ok (r : list str) : bool :=
@@ -236,7 +254,13 @@ Definition first_ok (r : list str) : bool :=
   end.
 Definition row_ok (cm : bool) (r : list str) : bool :=
   row_tok cm r && first_ok r && forallb (forallb char_ok) r.
-Definition well_shaped (cm : bool) (rows : list (list str)) : bool := forallb (row_ok cm) rows.
+Definition c_bom := 65279.
+Definition bom_ok (rows : list (list str)) : bool :=
+  match rows with
+  | (f :: _) :: _ => needs_quote f || match f with c :: _ => negb (c =? c_bom) | [] => true end
+  | _ => true
+  end.
+Definition well_shaped (cm : bool) (rows : list (list str)) : bool := bom_ok rows && forallb (row_ok cm) rows.
 Definition comment_ok (body : str) : bool :=
   forallb (fun c => negb (c =? c_lf) && negb (c =? c_cr) && char_ok c) body.
 
@@ -401,6 +425,64 @@ Definition blob_to_csv_text (names : list (Z * str)) (reprs : list (rat * str)) 
   bind (blob_to_csv_table names reprs nm hier conf sticky categ b) (fun tb =>
   Ok (csv_file (csv_comment_bodies names repo version nm hier meta algo) tb)).
 
+(* ---- sticky and categ DERIVED, as the real code derives them (audit 4, A4).
+   blob_to_df:   for col in df.columns: category iff 'label' in col or 'name' in col or 'alias' in col
+                                                      or 'assignment' in col
+   blob_to_csv:  a column is kept iff col == 'cell_id' or 'name' in col or 'label' in col or 'alias' in col
+                                      or confidence_label in col
+   - Python substring tests on the COLUMN NAME f'{readable_level}_{element}'.  Here the tests are made on the
+   readable level name; that is the same test, column by column: the words 'name', 'label', 'alias',
+   'assignment' hold no '_', so an occurrence in rl ++ '_' ++ element lies inside rl or inside the element; the
+   elements that are not label / name / alias themselves (bootstrapping_probability, avg_correlation /
+   correlation_coefficient, aggregate_probability, directly_assigned, runner_up_assignment_i,
+   runner_up_correlation_i, runner_up_probability_i) hold none of 'name', 'label', 'alias' - so such a column is
+   kept iff it is the confidence column or rl holds a word -, and 'assignment' occurs only in
+   runner_up_assignment_i, a column of strings on which the category conversion changes nothing in the text.
+   The confidence label ('bootstrapping_probability' / 'correlation_coefficient') holds ONE '_': an occurrence
+   across the separator would need an element that starts with 'probability' / 'coefficient' - there is none -,
+   so it lies inside rl (sticky) or is the confidence column itself.  The tie (tag 1556) compares the text
+   computed with these derived lists byte for byte with the file the real blob_to_csv writes, on level names
+   that do hold the words. *)
+Fixpoint prefix_b (w s : str) : bool :=
+  match w, s with
+  | [], _ => true
+  | a :: w', b :: s' => (a =? b) && prefix_b w' s'
+  | _ :: _, [] => false
+  end.
+(* Python's `w in s` *)
+Fixpoint contains (w s : str) : bool :=
+  prefix_b w s || match s with [] => false | _ :: t => contains w t end.
+Definition conf_label (conf : nat) : str :=
+  if Nat.eqb conf 1 then Lit.correlation_coefficient else Lit.bootstrapping_probability.
+Definition sticky_word (conf : nat) (s : str) : bool :=
+  contains Lit.w_name s || contains Lit.w_label s || contains Lit.w_alias s || contains (conf_label conf) s.
+Definition categ_word (s : str) : bool :=
+  contains Lit.w_label s || contains Lit.w_name s || contains Lit.w_alias s || contains Lit.w_assignment s.
+Definition sticky_of (names : list (Z * str)) (conf : nat) (rls : list Z) : list Z :=
+  filter (fun rl => sticky_word conf (name_str names rl)) rls.
+Definition categ_of (names : list (Z * str)) (rls : list Z) : list Z :=
+  filter (fun rl => categ_word (name_str names rl)) rls.
+Definition blob_to_csv_table_auto (names : list (Z * str)) (reprs : list (rat * str))
+           (nm : naming) (hier : list Z) (conf : nat) (b : blob) : res (list (list str)) :=
+  let rls := map (level_to_name nm) hier in
+  blob_to_csv_table names reprs nm hier conf (sticky_of names conf rls) (categ_of names rls) b.
+Definition blob_to_csv_text_auto (names : list (Z * str)) (reprs : list (rat * str)) (repo version : str)
+           (nm : naming) (hier : list Z) (meta : option Z) (algo : nat) (conf : nat) (b : blob) : res str :=
+  let rls := map (level_to_name nm) hier in
+  blob_to_csv_text names reprs repo version nm hier meta algo conf (sticky_of names conf rls) (categ_of names rls) b.
+
+(* every integer name the file shows stands for a string: the metadata file name, the levels and their
+   readable names, the cell ids, the assignments and their names / aliases.  (name_str gives '' for an
+   integer outside `names`: a theorem about the text must not be instantiated there.) *)
+Definition used_names (nm : naming) (hier : list Z) (meta : option Z) (b : blob) : list Z :=
+  (match meta with Some m => [m] | None => [] end) ++ hier ++ map (level_to_name nm) hier ++
+  flat_map (fun cl => c_id cl ::
+              flat_map (fun ll => [l_assign (snd ll); label_to_name nm (fst ll) (l_assign (snd ll)) false;
+                                   label_to_name nm (fst ll) (l_assign (snd ll)) true])
+                       (combine hier (c_levels cl))) b.
+Definition names_defined (names : list (Z * str)) (zs : list Z) : bool :=
+  forallb (fun z => match zassoc z names with Some _ => true | None => false end) zs.
+
 (* ---------------- wire ---------------- *)
 Definition of_rows (rows : list (list str)) : sx := of_list (of_list of_LZ) rows.
 Definition of_parse (r : option (list (list str))) : sx := of_option of_rows r.
@@ -474,6 +556,41 @@ Definition run_blob_to_csv_text (x : sx) : sx :=
                   end
               | None => sx_bad end
           | _, _, _, _, _, _, _ => sx_bad end
+      | _, _, _, _ => sx_bad end
+  | _ => sx_bad
+  end.
+
+(* tag 1556: as 1555 without the (sticky categ) argument: the two lists are DERIVED by the model
+   (sticky_of / categ_of).  (names reprs (repo version) naming hierarchy meta? algo conf blob)
+   -> (text, comment bodies ok, table well_shaped, used names defined, readable level STRINGS distinct) *)
+Fixpoint str_eqb (a b : str) : bool :=
+  match a, b with
+  | [], [] => true
+  | x :: a', y :: b' => (x =? y) && str_eqb a' b'
+  | _, _ => false
+  end.
+Fixpoint str_nodup_b (l : list str) : bool :=
+  match l with [] => true | x :: t => negb (existsb (str_eqb x) t) && str_nodup_b t end.
+Definition run_blob_to_csv_text_auto (x : sx) : sx :=
+  match x with
+  | L [ns; rp; L [repo; ver]; nm; h; m; a; c; b] =>
+      match sx_names ns, sx_reprs rp, sx_LZ repo, sx_LZ ver with
+      | Some ns', Some rp', Some repo', Some ver' =>
+          match sx_naming nm, sx_LZ h, sx_opt sx_Z m, sx_nat a, sx_nat c with
+          | Some nm', Some h', Some m', Some a', Some c' =>
+              match sx_blob b with
+              | Some b' =>
+                  match blob_to_csv_table_auto ns' rp' nm' h' c' b' with
+                  | Ok tb =>
+                      let bodies := csv_comment_bodies ns' repo' ver' nm' h' m' a' in
+                      sx_ok (L [of_LZ (csv_file bodies tb); of_bool (forallb comment_ok bodies);
+                                of_bool (well_shaped true tb);
+                                of_bool (names_defined ns' (used_names nm' h' m' b'));
+                                of_bool (str_nodup_b (map (fun l => name_str ns' (level_to_name nm' l)) h'))])
+                  | Err e => sx_err e
+                  end
+              | None => sx_bad end
+          | _, _, _, _, _ => sx_bad end
       | _, _, _, _ => sx_bad end
   | _ => sx_bad
   end.
